@@ -62,6 +62,13 @@ def gen(rng, n):
             guess.setdefault(p, []).append(c)
         elif k < .86:
             ops.append(('U', c))
+        elif k < .90:
+            # assignment / deletion addressed by name and index (ElementList.set with an Element value, remove_by_name)
+            if rng.random() < .6:
+                ops.append(('E', p, c, rng.choice([0, 0, 1, 2, -1, -2])))
+                guess.setdefault(p, []).append(c)
+            else:
+                ops.append(('D', p, nodes[listed(p)][1], rng.choice([0, 0, 1, -1, 2])))
         elif k < .94:
             ops.append(('T', p, c))
         else:
@@ -145,6 +152,22 @@ def run_real(h):
             elif k == 'U':
                 mops.append('U.%d' % op[1])
                 objs[op[1]].parent = None
+            elif k == 'E':
+                p, child = objs[op[1]], objs[op[2]]
+                valid = validity(p, child)
+                mops.append('E.%d.%d.%d.%d' % (op[1], op[2], op[3], valid))
+                p.children.set(child.name, child, op[3])
+            elif k == 'D':
+                try:
+                    objs[op[1]].children._find_name(op[2])
+                    resolvable = True
+                except HL7apyException:
+                    resolvable = False          # a name the element does not know: refused before any child is looked at
+                if resolvable:
+                    mops.append('D.%d.%s.%d' % (op[1], op[2], op[3]))
+                    objs[op[1]].children.remove_by_name(op[2], op[3])
+                else:
+                    mops.append('N')
             elif k == 'T':
                 # the library sets a traversal parent only on an element it has just created (create_element)
                 if child.parent is None and child.traversal_parent is None:
